@@ -2,11 +2,11 @@ import json, vlib
 
 THEOREMS = ["Folang.Props.C15." + t for t in """toGo_int toGo_string toGo_bool toGo_any toGo_float toGo_unit toGo_slice
 toGo_tuple2 toGo_tuple3 toGo_func1 toGo_func2 toGo_func_unit_result toGo_func_unit_arg toGo_func_nested toGo_named0
-toGo_named1 toGo_named2""".split()]
+toGo_named1 toGo_named2 roundtrip roundtrip_whole goType_of_rendering denote_arrows_flat denote_paren""".split()]
 
 ASSUMPTIONS = [
     "model: parseType > parseTypeArrows > parseElemType > parseTermType > parseAtomType with mightParseSpecifiedTypeList / parseTypeList / parseFullName over tokens and an environment of registered type names; FTypeToGo with funcTypeToGo, fTupleToGo, fSliceToGo, tArgsToGo, fpToGo",
-    "partial: the round trip (parser model returns t on every rendering of t, roundtrip_full) is NOT proved in Lean; the parser model is executable and tied by exhaustive enumeration to the real parseType; precedence clauses are checked on instances by kernel evaluation",
+    "roundtrip (Props/C15.lean): for every concrete syntax tree of the grammar (a tree per level TYPE > ELEM > TERM > ATOM, so with the parentheses the levels require and any redundant ones, any depth, any number of arrows / stars / type arguments, dotted names) whose names resolve, the parser model returns exactly the FType the tree denotes on its rendering followed by any token that cannot continue a type, for every sufficient fuel; goType_of_rendering composes it with the documented Go rendering toGo. The converse (the parser accepts nothing but renderings) is not stated",
     "tie: c15.type stream: type-expression text -> real parseType + FTypeToGo in-process vs the model; the same expressions in the five positions (parameter annotation, record field, union payload, package_info signature, explicit type argument) through the whole pipeline, Go type text cut from the emitted file; a malformed stream (token dropped/duplicated)",
     "forward references inside `type ... and` groups and field-access types are outside the statement",
 ]
@@ -16,7 +16,6 @@ def run(ctx):
     ctx.ensure_oracle()
     fcdrv = ctx.build_fcdrv()
     ctx.assumptions += ASSUMPTIONS
-    ctx.partial.append("roundtrip_full (parser) stated, not proved")
     ctx.lake_build(["Folang.Props.C15"])
     ctx.audit(THEOREMS, ["Folang.Props.C15"])
     if ctx.tier == "thorough":
